@@ -132,6 +132,7 @@ def pubify_struct_body(body, report):
     """body: '{ ... }' of a struct with named fields.  Make every field pub,
     drop per-field attributes and doc comments."""
     mask = mask_source(body)
+    body = mask            # comments blanked (struct bodies contain no string literals)
     inner_lo, inner_hi = 1, len(body) - 1
     fields = []
     depth = 0
